@@ -236,6 +236,36 @@ pub struct StepCtx<'a> {
     pub err_variants: BTreeMap<String, u64>,
 }
 
+/// does the document contain two identifiable elements of different kinds with the same AUTOSAR path?
+fn document_has_two_kinds_under_one_path(text: &str) -> bool {
+    use crate::refxml::{RefItem, RefNode};
+    fn walk(n: &RefNode, prefix: &str, seen: &mut HashMap<String, String>, hit: &mut bool) {
+        let mut path = prefix.to_string();
+        if let Some(RefItem::Elem(sn)) = n.items.first() {
+            if sn.name == "SHORT-NAME" {
+                let name: String = sn.items.iter().filter_map(|i| if let RefItem::Text(t, _, _) = i { Some(t.trim().to_string()) } else { None }).collect();
+                path = format!("{prefix}/{name}");
+                match seen.get(&path) {
+                    Some(kind) if *kind != n.name => *hit = true,
+                    Some(_) => {}
+                    None => {
+                        seen.insert(path.clone(), n.name.clone());
+                    }
+                }
+            }
+        }
+        for i in &n.items {
+            if let RefItem::Elem(c) = i {
+                walk(c, &path, seen, hit);
+            }
+        }
+    }
+    let Ok(doc) = crate::refxml::parse(text.as_bytes()) else { return false };
+    let (mut seen, mut hit) = (HashMap::new(), false);
+    walk(&doc.root, "", &mut seen, &mut hit);
+    hit
+}
+
 fn post_check(ctx: &mut StepCtx, w: &World, op: &Op, pre: &Pre, out: &Outcome) -> Vec<Viol> {
     let mut viols = Vec::new();
     let mk = |rule: &str, pred: &str, detail: String| Viol {
@@ -385,6 +415,13 @@ fn post_check(ctx: &mut StepCtx, w: &World, op: &Op, pre: &Pre, out: &Outcome) -
                         } else {
                             "tables"
                         };
+                        // cause known for one kind of rejected load: the document itself holds two elements of different kinds under
+                        // one path (the check made before the merge sees only one of them, the registration after the merge fails)
+                        let cause = match op {
+                            Op::LoadBuffer { text, .. } if variant == "OverlappingDataError" && document_has_two_kinds_under_one_path(text) => ":document-with-two-kinds-under-one-path",
+                            _ => "",
+                        };
+                        let section = format!("{section}{cause}");
                         viols.push(mk(
                             "failed-call-has-effect",
                             &format!("{:?}:{variant}:{section}", op.kind()),
